@@ -1569,7 +1569,7 @@ theorem sim_stmt_step {f : Nat} (ihS : SimStmt f) (ihF : SimFor f) (ihR : SimRng
   | rng x n body =>
     simp only [Stmt.wellScoped, Bool.and_eq_true] at hw
     simp only [execS, execM, compile]
-    -- the bound is copied when the loop is entered (231dea3): also for a bare variable
+    -- the bound is copied when the loop is entered (716c992): also for a bare variable
     have hbound : boundM .yaegi fr stM (n.map sc.res) =
         match (n.map sc.res).eval (lookM fr stM) with
         | .ok N => .ok (.val N)
